@@ -58,6 +58,15 @@ Theorem C12_loop_refuted_before_fix_content_skipped :
 Proof. exact sp_refuted_norearm. Qed.
 Print Assumptions C12_loop_refuted_before_fix_content_skipped.
 
+(* not a defect of any committed code: a monitor that keeps what it saw of the start events across
+   activations lets the parent continue before the re-entered content has even started *)
+Theorem C12_not_early_refuted_with_stale_monitor_state :
+  exists s, spexec sp_stale_seen spinit
+    [PEnter; PBegin; PStartFlows; PStartSeen; PDie; PCease; PContinue; PEnter; PBegin; PCease; PContinue] = Some s /\
+    conts s = 2 /\ bodies s = 1 /\ early s = true.
+Proof. exact sp_refuted_stale_seen. Qed.
+Print Assumptions C12_not_early_refuted_with_stale_monitor_state.
+
 Example C12_nonvacuous :
   behaviour (BLoop 3 (BSub (BSeq (BTask 1) (BSub (BPar (BTask 2) (BTask 3)))))) [false; false; false; false]
     [(1, [(3, true)]); (3, []); (2, []); (1, [(3, false)]); (2, []); (3, [])]
